@@ -663,6 +663,10 @@ def status_sweep(exe, tier, seed):
                         % (len(codes), ", ".join(ranges(codes)[:12]), kind, (r.get("panic_text") or {}).get(kind, "")),
                         dict(kind="status-sweep", path=kind, codes=ranges(codes), first_code=codes[0], panic=(r.get("panic_text") or {}).get(kind, ""),
                              how="harness/llrp/c10_test.go TestVerifC10StatusSweep request %s" % json.dumps(dict(rq, codes=codes[:1]) if rq["op"] == "session" else dict(rq, lo=codes[0], hi=codes[0])))))
+        for kind, codes in sorted((r.get("wedged") or {}).items()):
+            out.append(("connect-wedged:status-refusal", "a session in which the peer refused %s with status code %d and closed: Connect did not return within "
+                        "3 s after the stream ended (codes %s)" % (kind, codes[0], ranges(codes)),
+                        dict(kind="status-sweep", path=kind, codes=ranges(codes), first_code=codes[0])))
         for kind, codes in sorted((r.get("hidden") or {}).items()):
             out.append(("status-text-panics-hidden:%s" % kind.split(":")[0 if rq["op"] == "decode" else 1].replace("-errmsg", ""),
                         "the text of the error the client returned contains a panic that fmt recovered while rendering a wrapped error, for %d codes (%s) — %s"
@@ -782,7 +786,7 @@ PROBE_VARIANTS = [("000", "as found: the two replies are values shared with the 
 
 def probe_model(scs, answers, crash_of):
     """the extracted probe_after on every scenario's abstraction for each variant -> (agreeing variant, {variant: diffs})"""
-    usable = [i for i, sc in enumerate(scs) if sc.get("_") and (answers.get(i) or i in crash_of)]
+    usable = [i for i, sc in enumerate(scs) if sc.get("_") and ((answers.get(i) and not answers[i].get("skipped")) or i in crash_of)]
     reqs = ["probe %s %s %s %s" % (v, scs[i]["_"]["se"], scs[i]["_"]["config"], scs[i]["_"]["caps"]) for i in usable for v, _ in PROBE_VARIANTS]
     if not reqs:
         return None, {}
@@ -816,7 +820,7 @@ def run_probe_family(exe, tier, seed, only=None):
     by_sig = {}
     for i, sc in enumerate(scs):
         go, cl = answers.get(i), crash_of.get(i)
-        if go is None and cl is None:
+        if (go is None and cl is None) or (go or {}).get("skipped"):
             continue
         fails = probe_check(sc, go, cl)
         if fails and cl is None and fails[0][0] == "probe-wedged":
@@ -827,7 +831,7 @@ def run_probe_family(exe, tier, seed, only=None):
             if sig not in by_sig:
                 by_sig[sig] = [text, sc, go, cl, []]
             by_sig[sig][4].append(sc["name"])
-    reached = sum(1 for a in answers.values() if a.get("saw_config_request"))
+    reached = sum(1 for a in answers.values() if a and a.get("saw_config_request"))
     variant, vdiffs = probe_model(scs, answers, crash_of)
     if variant is None and vdiffs and only is None:
         best = min(vdiffs, key=lambda v: len(vdiffs[v]))
@@ -853,6 +857,8 @@ def device_model(scs, answers, crash_of, abstr):
     for i, sc in enumerate(scs):
         a = answers.get(i)
         if sc["src"] or sc.get("no_sentinel") or not abstr.get(i):
+            continue
+        if a is not None and a.get("skipped"):
             continue
         if a is not None and a.get("setup") and a.get("sent") == len(sc["frames"]):
             usable.append((i, False, a))
@@ -898,7 +904,7 @@ def run_device_family(exe, tier, seed, only=None):
     by_sig = {}
     for i, sc in enumerate(scs):
         go, cl = answers.get(i), crash_of.get(i)
-        if go is None and cl is None:
+        if (go is None and cl is None) or (go or {}).get("skipped"):
             continue
         fails = device_check(sc, go, cl)
         if fails and cl is None:
@@ -1335,7 +1341,7 @@ def run(tier, seed, replay=None):
                                  dmodel["variant"], dict(DEV_VARIANTS).get(dmodel["variant"]), dmodel["variants"], dmodel["compared"]))
             for i, dsc in enumerate(dscs):
                 a = dans.get(i)
-                if a is None and i not in dict(dcrashes):
+                if (a is None and i not in dict(dcrashes)) or (a or {}).get("skipped"):
                     continue
                 evals += 1
                 dev_evals += 1
@@ -1384,7 +1390,7 @@ def run(tier, seed, replay=None):
             res.notes.append("discovery level: variant of the probe model that agrees with every observation: %s (%s); disagreements per "
                              "variant: %s" % (pmodel["variant"], dict(PROBE_VARIANTS).get(pmodel["variant"]), pmodel["variants"]))
             for i, psc in enumerate(pscs):
-                if pans_.get(i) is None and i not in dict(pcrashes):
+                if (pans_.get(i) is None and i not in dict(pcrashes)) or (pans_.get(i) or {}).get("skipped"):
                     continue
                 evals += 1
                 probe_evals += 1
